@@ -8,7 +8,7 @@ from vlib import hexd, frac, frac_of_hex, unhex
 EPS = 2.0 ** -52
 
 
-STYLES = ["dyadic", "full", "tinyscale", "illcond", "rankdef", "scalar", "tall", "identityH", "diagonal", "zeroinnov", "symH", "hugescale", "mixedscale", "neardup", "full", "selector", "blockdup", "microscale", "bigdim", "zerorowcorr"]
+STYLES = ["dyadic", "full", "tinyscale", "illcond", "rankdef", "scalar", "tall", "identityH", "diagonal", "zeroinnov", "symH", "hugescale", "mixedscale", "neardup", "full", "selector", "blockdup", "microscale", "bigdim", "zerorowcorr", "mixedunits"]
 
 
 def scale_of(r, style, which):
@@ -102,6 +102,16 @@ def gen_HR(g, style, n, m):
         for i in r.sample(range(m), r.randint(1, max(1, m - 1)) if m > 1 else 1):
             H[i] = [0.0] * n
         R = g.spd(m, cond=10 ** r.uniform(0.5, 2))
+    if style == "mixedunits":
+        # measurement channels in very different units within one vector: y -> D y, H -> D H, R -> D R D with channel
+        # factors spread over 1e-5 .. 1e5.  The posterior does not depend on D; S = H P H^T + R is badly scaled
+        # (pivot spread up to 1e20) but perfectly conditioned once every channel is expressed in its own unit.
+        R = g.spd(m, cond=10 ** r.uniform(0, 1.5), scale=10 ** r.uniform(-1, 1))
+        du = [10 ** r.uniform(-5, 5) for _ in range(m)]
+        if m > 1:
+            du[0], du[-1] = 10 ** r.uniform(2, 5), 10 ** r.uniform(-5, -2)
+        H = [[H[i][j] * du[i] for j in range(n)] for i in range(m)]
+        R = [[R[min(i, j)][max(i, j)] * du[min(i, j)] * du[max(i, j)] for j in range(m)] for i in range(m)]      # bitwise symmetric
     if style == "blockdup":
         # trailing block of the state at a scale ts (1e-13 .. 1e-20) observed in fine units (H ~ ts^-1/2): S = O(1)
         n1, ts = g.blk
@@ -326,6 +336,27 @@ def check_case(ctx, line, meta, hout, dout, iout, stats, lout=None, exact_info=T
         Ks = nPs * nHs * nSi
         tolPs = 64 * EPS * kS * (Ks * Ks * nS + nPs) * max(n, m)
         tolms = 64 * EPS * kS * Ks * nnu * max(n, m)
+        # Channels in different units: the correction is invariant under y -> E^-1 y (H -> E^-1 H, S -> E^-1 S E^-1), so the
+        # result is also held to the bound of the problem with every channel in its own unit e_a = sqrt(S_aa), with a
+        # further margin MU for factorizations whose rounding is not invariant under that scaling.  Only used when the
+        # channel units differ by more than 1e3 (otherwise the bounds above are the sharper ones).
+        eS = [max(float(S[a][a]), 0.0) ** 0.5 for a in range(m)]
+        units_spread = (max(eS) / min(eS)) if (eS and min(eS) > 0) else 1.0
+        tolPu = tolmu = None
+        if units_spread > 1e3:
+            MU = 64.0
+            Se = [[float(S[a][b]) / (eS[a] * eS[b]) for b in range(m)] for a in range(m)]
+            Sei = [[float(Si[a][b]) * (eS[a] * eS[b]) for b in range(m)] for a in range(m)]
+            nSe = (sum(v * v for row in Se for v in row) ** 0.5) * m
+            nSie = (sum(v * v for row in Sei for v in row) ** 0.5) * m
+            kSe = max(1.0, nSe * nSie)
+            nHe = (sum((float(H[a][j]) * dS[j] / eS[a]) ** 2 for a in range(m) for j in range(n)) ** 0.5) * max(n, m)
+            Ke = nPs * nHe * nSie
+            nnue = max([abs(float(mnu[c][a])) / eS[a] for a in range(m)] + [0.0]) * m
+            tolPu = MU * 64 * EPS * kSe * (Ke * Ke * nSe + nPs) * max(n, m)
+            tolmu = MU * 64 * EPS * kSe * Ke * nnue * max(n, m)
+            stats["max_kS_own_units"] = max(stats.get("max_kS_own_units", 0.0), kSe)
+            stats["cases_channels_in_different_units"] = stats.get("cases_channels_in_different_units", 0) + 1
         # theorem instance on the executed ℚ model: gain form == information form, exactly
         # (prior exactly symmetric: the theorem's hypothesis; beliefs a filter reaches are symmetric up to rounding only)
         if exact_info and (mP[c] != oP[c] or mm[c] != om[c]):
@@ -348,6 +379,15 @@ def check_case(ctx, line, meta, hout, dout, iout, stats, lout=None, exact_info=T
         relmE = max(float(abs(Fraction(cm[c][i]) - om[c][i])) / (dS[i] * tolms + 64 * EPS * kS * max(n, m) * abs(float(means[c][i])) + 1e-300) for i in range(n))
         stats["max_relerr_cov_scaled"] = max(stats.get("max_relerr_cov_scaled", 0.0), relE)
         stats["max_relerr_mean_scaled"] = max(stats.get("max_relerr_mean_scaled", 0.0), relmE)
+        if tolPu is not None:
+            relU = max(float(abs(Fraction(cP[c][i][j]) - oP[c][i][j])) / (dS[i] * dS[j] * tolPu + 1e-300) for i in range(n) for j in range(n))
+            relmU = max(float(abs(Fraction(cm[c][i]) - om[c][i])) / (dS[i] * tolmu + MU * 64 * EPS * kSe * max(n, m) * abs(float(means[c][i])) + 1e-300) for i in range(n))
+            stats["max_relerr_cov_own_units"] = max(stats.get("max_relerr_cov_own_units", 0.0), relU)
+            stats["max_relerr_mean_own_units"] = max(stats.get("max_relerr_mean_own_units", 0.0), relmU)
+            if relU > 1.0:
+                probs.append(("prop", "cov-not-posterior", "component %d: covariance is not (P^-1+H^T R^-1 H)^-1 by %.3g of the bound of the problem with every measurement channel in its own unit (channel units spread over %.3g, cond of S in own units %.3g)" % (c, relU, units_spread, kSe)))
+            if relmU > 1.0:
+                probs.append(("prop", "mean-not-posterior", "component %d: mean is not the posterior mean by %.3g of the bound of the problem with every measurement channel in its own unit (channel units spread over %.3g)" % (c, relmU, units_spread)))
         if errPo > tolP or relE > 1.0:
             probs.append(("prop", "cov-not-posterior", "component %d: covariance is not (P^-1+H^T R^-1 H)^-1: err %.3g tol %.3g (in equilibrated state coordinates: %.3g of the bound)" % (c, float(errPo), tolP, relE)))
         if errmo > tolm or relmE > 1.0:
